@@ -34,7 +34,8 @@ Definition map_fn (id : nat) (x : elem) : fres :=
   | 3%nat => FOk (L [x; x])
   | 4%nat => match x with I 3 => FErr 12 | _ => FOk x end
   | 5%nat => match x with I z => if Z.odd z then FOk (X 7) else FOk x | _ => FOk x end
-  | _ => FOk (P x x)
+  | 6%nat => FOk (P x x)
+  | _ => match x with I 5 => FErr 17 | _ => FOk x end     (* raises a StopIteration: an error like any other *)
   end.
 
 Definition pred_fn (id : nat) (x : elem) : pres :=
@@ -43,7 +44,8 @@ Definition pred_fn (id : nat) (x : elem) : pres :=
   | 1%nat => match x with I z => POk (Z.even z) | N => POk false | _ => PErr 13 end
   | 2%nat => match x with N => POk false | _ => POk true end
   | 3%nat => match x with I 2 => PErr 14 | _ => POk true end
-  | _ => POk false
+  | 4%nat => POk false
+  | _ => match x with I 6 => PErr 18 | _ => POk true end   (* raises a StopIteration *)
   end.
 
 Definition parity (x : elem) : elem := match x with I z => I (z mod 2) | _ => N end.
@@ -59,7 +61,8 @@ Definition key_fn (id : nat) (x : elem) : fres :=
 Definition acc_fn (id : nat) (a b : elem) : fres :=
   match id with
   | 0%nat => match a, b with I x, I y => FOk (I (x + y)) | _, _ => FErr 16 end
-  | _ => FOk b
+  | 1%nat => FOk b
+  | _ => match b with I 7 => FErr 20 | _ => FOk b end      (* raises a StopIteration *)
   end.
 
 Inductive opc :=
